@@ -31,7 +31,7 @@ RULE = ('designed networks whose OMS differ in amplifier bands: shipped multiban
         ' Also lines that end on a transceiver: point-to-point links without ROADMs (some without any amplifier) and a transceiver attached to a ROADM through a line.')
 ASSUMPTIONS = ['the slots within one grid step (6.25 GHz) of a band edge are not judged',
                'amplifier bands are read from the loaded library']
-REQUIRED_COUNTERS = {'stock_tests_run': 5, 'stock_bitmap_invariant_evaluations': 500, 'oms_lists_built': 20, 'oms_checked': 100, 'bitmap_invariant_evaluations': 200,
+REQUIRED_COUNTERS = {'networks_mixing_band_plans': 10, 'stock_tests_run': 5, 'stock_bitmap_invariant_evaluations': 500, 'oms_lists_built': 20, 'oms_checked': 100, 'bitmap_invariant_evaluations': 200,
                      'band_marking_checks': 100, 'alignment_sets': 20, 'networks_with_different_bands': 8}
 CASE_TIMEOUT = {'quick': 400, 'thorough': 1800}
 FREE, OCC, UNU = BitmapValue.FREE, BitmapValue.OCCUPIED, BitmapValue.UNUSABLE
@@ -81,7 +81,7 @@ def install():
 def plan(tier, seed):
     n = 720 if tier == 'quick' else 10000
     kinds = ['multiband_shipped', 'multiband_gen', 'mixed', 'narrow', 'align', 'align', 'multiband_gen', 'narrow',
-             'p2p', 'chassis', 'offgrid', 'align', 'mixed_wide']
+             'p2p', 'chassis', 'offgrid', 'align', 'mixed_wide', 'suppliers']
     cases = [{'idx': i, 'kind': kinds[i % len(kinds)]} for i in range(n)]
     # the repository's own tests as one more workload, with the Bitmap invariant on
     return cases + stock.stock_cases(tier, n, ID)
@@ -161,6 +161,31 @@ def build_mixed(rng, wide=False):
             cx.remove(c)
             cx.append({'from_node': a, 'to_node': uid})
             cx.append({'from_node': uid, 'to_node': b})
+    network = G.make_network(tj, equipment)
+    SimParams.set_params({})
+    G.design(equipment, network)
+    return {'ej': ej, 'tj': tj, 'equipment': equipment, 'network': network}
+
+
+def build_suppliers(rng):
+    """C+L network whose multiband amplifiers come from two suppliers with different band plans: the L-band model of
+    the second one reaches up into the bottom of the first one's C band, so that an OMS mixing them has a third, narrow
+    common band between the two wide ones (narrower than a channel spacing in some draws)."""
+    ej = G.eqpt_json('eqpt_config_multiband.json')
+    low = next(e for e in ej['Edfa'] if e['type_variety'] == 'std_low_gain')
+    c_lo = G.pick(rng, [191.4e12, 191.35e12, 191.3e12])
+    # (the two bands of one amplifier stay apart: bands that touch or overlap inside one amplifier are not a band plan)
+    l_hi = G.pick(rng, [x for x in (191.28e12, 191.30e12, 191.2625e12) if x < c_lo])
+    ej['Edfa'].append({**low, 'type_variety': 'vf_xl_C', 'f_min': c_lo, 'f_max': 196.15e12})
+    ej['Edfa'].append({**low, 'type_variety': 'vf_xl_L', 'f_min': 186.55e12, 'f_max': l_hi})
+    ej['Edfa'].append({'type_variety': 'vf_xl_multiband', 'type_def': 'multi_band', 'amplifiers': ['vf_xl_C', 'vf_xl_L'],
+                       'allowed_for_design': False})
+    equipment = G.make_equipment(ej)
+
+    def rp(r, s):
+        return {'design_bands': deepcopy(P.MB_BANDS)}
+    tj, tdesc = G.gen_topology(rng, max_sites=3, max_spans=3, user_amps=False, fused=False, roadm_params=rp, max_km=110)
+    P.multibandify(tj, rng, varieties=['std_low_gain_multiband_bis', 'vf_xl_multiband', 'vf_xl_multiband'])
     network = G.make_network(tj, equipment)
     SimParams.set_params({})
     G.design(equipment, network)
@@ -306,6 +331,13 @@ def run_network(case, ctx):
         except (NetworkTopologyError, ConfigurationError) as e:
             ctx.reject(f'{type(e).__name__}: {str(e)[:120]}')
             return
+    elif kind == 'suppliers':
+        try:
+            scen = build_suppliers(rng)
+        except (NetworkTopologyError, ConfigurationError) as e:
+            ctx.reject(f'{type(e).__name__}: {str(e)[:120]}')
+            return
+        ctx.count('networks_mixing_band_plans')
     elif kind in ('p2p', 'chassis'):
         scen = build_trx_lines(rng, kind)
         ctx.count('networks_with_lines_ending_on_a_transceiver')
